@@ -17,6 +17,13 @@ from engine.nulldom import NullDom
 
 PID = 'C14'
 
+META = {
+    'technique': 'CFG may-analysis for NULL dominance + lockset dataflow + dominance of range tests + call-graph reachability of blocking primitives',
+    'text': 'Decides four structural clauses on every path of all EB_API functions: NULL-argument tests dominate every dereference (interprocedural), no API exit leaves a mutex held (so a rejected configuration leaves the handle usable), caller-controlled counts are range-tested before bounding array accesses in the set_parameter flow, and only allow-listed blocking primitives are reachable per API function. Structure, not behaviour: it does not execute call sequences.',
+    'note': 'clang 14 front end/CFG; production flags from CMake (-DNDEBUG); handle-internal state (p_component_private) assumed valid; function-pointer targets resolved from address-taken facts',
+    'ref': 'DESIGN.md section 5 C14',
+}
+
 BLOCKING = {'svt_get_full_object', 'svt_get_empty_object', 'svt_block_on_semaphore', 'svt_wait_cond_var',
             'svt_destroy_thread', 'pthread_join', 'sem_wait', 'pthread_cond_wait', 'sleep', 'usleep', 'nanosleep',
             'svt_sleep'}
